@@ -194,41 +194,59 @@ end
 
 /-! ## the invariant of the generator state -/
 
-def FrameOk (f : Frame) : Prop := ∀ kv ∈ f, IsIdent kv.2
+/-- `g` is a JavaScript name generated FOR the Soy name `k` (vacuous for the scope's internal keys,
+    which contain "$" and are no Soy names) -/
+def NameFor (k g : Bytes) : Prop := k.contains 36 = false → ∃ use m, g = Scope.jsname k use m
+
+theorem nameFor_jsname (k use : Bytes) (m : Nat) : NameFor k (Scope.jsname k use m) := fun _ => ⟨use, m, rfl⟩
+
+theorem nameFor_dollar {k g : Bytes} (h : k.contains 36 = true) : NameFor k g := by
+  intro h'; rw [h] at h'; cases h'
+
+/-- every binding of a frame holds an identifier, and one generated for the name it is bound to -/
+def FrameOk (f : Frame) : Prop := ∀ kv ∈ f, IsIdent kv.2 ∧ NameFor kv.1 kv.2
 def ScopeOk (sc : Scope) : Prop := ∀ f ∈ sc.stack, FrameOk f
 
-theorem frameSet_ok : ∀ (f : Frame) (k v : Bytes), FrameOk f → IsIdent v → FrameOk (frameSet f k v)
-  | [], k, v, _, hv => by
+/-- the generator's scope maps every Soy name to a name generated FOR IT (scope.go `jsname`) -/
+def ScopeShape (sc : Scope) : Prop :=
+  ∀ k g, k.contains 36 = false → sc.lookup k = some g → ∃ use m, g = Scope.jsname k use m
+
+theorem frameSet_ok : ∀ (f : Frame) (k v : Bytes), FrameOk f → IsIdent v → NameFor k v → FrameOk (frameSet f k v)
+  | [], k, v, _, hv, hn => by
     unfold frameSet
     intro kv hkv
     simp only [List.mem_singleton] at hkv
     subst hkv
-    exact hv
-  | (k', v') :: r, k, v, hf, hv => by
+    exact ⟨hv, hn⟩
+  | (k', v') :: r, k, v, hf, hv, hn => by
     unfold frameSet
     split
     · intro kv hkv
       rcases List.mem_cons.mp hkv with rfl | h
-      · exact hv
+      · exact ⟨hv, hn⟩
       · exact hf kv (by simp [h])
     · intro kv hkv
       rcases List.mem_cons.mp hkv with rfl | h
       · exact hf _ (by simp)
-      · exact frameSet_ok r k v (fun x hx => hf x (by simp [hx])) hv kv h
+      · exact frameSet_ok r k v (fun x hx => hf x (by simp [hx])) hv hn kv h
 
-theorem frameGet_ok : ∀ (f : Frame) (k v : Bytes), FrameOk f → frameGet? f k = some v → IsIdent v
+theorem frameGet_ok : ∀ (f : Frame) (k v : Bytes), FrameOk f → frameGet? f k = some v → IsIdent v ∧ NameFor k v
   | [], _, _, _, h => by simp [frameGet?] at h
   | (k', v') :: r, k, v, hf, h => by
     unfold frameGet? at h
     split at h
-    · simp only [Option.some.injEq] at h
+    · rename_i hk
+      have : k' = k := by simpa using hk
+      subst this
+      simp only [Option.some.injEq] at h
       subst h
       exact hf (k', v') (by simp)
     · exact frameGet_ok r k v (fun x hx => hf x (by simp [hx])) h
 
 theorem frameOk_nil : FrameOk [] := by intro kv h; cases h
 
-theorem lookupIn_ok : ∀ (st : List Frame) (k v : Bytes), (∀ f ∈ st, FrameOk f) → Scope.lookupIn st k = some v → IsIdent v
+theorem lookupIn_ok : ∀ (st : List Frame) (k v : Bytes), (∀ f ∈ st, FrameOk f) → Scope.lookupIn st k = some v →
+    IsIdent v ∧ NameFor k v
   | [], _, _, _, h => by simp [Scope.lookupIn] at h
   | f :: r, k, v, hs, h => by
     unfold Scope.lookupIn at h
@@ -240,7 +258,11 @@ theorem lookupIn_ok : ∀ (st : List Frame) (k v : Bytes), (∀ f ∈ st, FrameO
     · exact lookupIn_ok r k v (fun x hx => hs x (by simp [hx])) h
 
 theorem lookup_ok {sc : Scope} {k v : Bytes} (h : ScopeOk sc) (hl : sc.lookup k = some v) : IsIdent v :=
-  lookupIn_ok sc.stack k v h hl
+  (lookupIn_ok sc.stack k v h hl).1
+
+/-- the frame-wise invariant gives the lookup-wise one -/
+theorem scopeOk_shape {sc : Scope} (h : ScopeOk sc) : ScopeShape sc :=
+  fun k g hk hl => (lookupIn_ok sc.stack k g h hl).2 hk
 
 theorem push_ok {sc : Scope} (h : ScopeOk sc) : ScopeOk sc.push := by
   intro f hf
@@ -254,30 +276,33 @@ theorem pop_ok {sc : Scope} (h : ScopeOk sc) : ScopeOk sc.pop := by
   simp only [Scope.pop] at hf
   exact h f (List.mem_of_mem_tail hf)
 
-theorem setTop_ok : ∀ (st : List Frame) (k v : Bytes), (∀ f ∈ st, FrameOk f) → IsIdent v →
+theorem setTop_ok : ∀ (st : List Frame) (k v : Bytes), (∀ f ∈ st, FrameOk f) → IsIdent v → NameFor k v →
     ∀ f ∈ Scope.setTop st k v, FrameOk f
-  | [], _, _, _, _ => by intro f hf; simp [Scope.setTop] at hf
-  | g :: r, k, v, hs, hv => by
+  | [], _, _, _, _, _ => by intro f hf; simp [Scope.setTop] at hf
+  | g :: r, k, v, hs, hv, hn => by
     intro f hf
     simp only [Scope.setTop, List.mem_cons] at hf
     rcases hf with rfl | hf
-    · exact frameSet_ok g k v (hs g (by simp)) hv
+    · exact frameSet_ok g k v (hs g (by simp)) hv hn
     · exact hs f (by simp [hf])
 
 theorem makevar_ok {sc : Scope} {v : Bytes} (h : ScopeOk sc) (hv : IsIdent v) :
     IsIdent (sc.makevar v).1 ∧ ScopeOk (sc.makevar v).2 :=
-  ⟨gen_ident hv _, setTop_ok sc.stack v _ h (gen_ident hv _)⟩
+  ⟨gen_ident hv _, setTop_ok sc.stack v _ h (gen_ident hv _) (nameFor_jsname v [] _)⟩
 
 theorem genname_ok {sc : Scope} {v : Bytes} (h : ScopeOk sc) (hv : IsIdent v) :
     IsIdent (sc.genname v).1 ∧ ScopeOk (sc.genname v).2 :=
   ⟨gen_ident hv _, h⟩
 
-theorem bind_ok {sc : Scope} {v g : Bytes} (h : ScopeOk sc) (hg : IsIdent g) : ScopeOk (sc.bind v g) :=
-  setTop_ok sc.stack v g h hg
+theorem bind_ok {sc : Scope} {v g : Bytes} (h : ScopeOk sc) (hg : IsIdent g) (hn : NameFor v g) : ScopeOk (sc.bind v g) :=
+  setTop_ok sc.stack v g h hg hn
 
 theorem chars_Limit : ∀ x ∈ b!"Limit", identChar x = true := by decide
 theorem chars_Index : ∀ x ∈ b!"Index", identChar x = true := by decide
 theorem chars_List : ∀ x ∈ b!"List", identChar x = true := by decide
+
+theorem kLimit_dollar (v : Bytes) : (Scope.kLimit ++ v).contains 36 = true := by simp [Scope.kLimit]
+theorem kIndex_dollar (v : Bytes) : (Scope.kIndex ++ v).contains 36 = true := by simp [Scope.kIndex]
 
 theorem pushForRange_ok {sc : Scope} {v : Bytes} (h : ScopeOk sc) (hv : IsIdent v) :
     IsIdent (sc.pushForRange v).1.1 ∧ IsIdent (sc.pushForRange v).1.2 ∧ ScopeOk (sc.pushForRange v).2 := by
@@ -287,7 +312,8 @@ theorem pushForRange_ok {sc : Scope} {v : Bytes} (h : ScopeOk sc) (hv : IsIdent 
   intro f hf
   simp only [Scope.pushForRange, List.mem_cons] at hf
   rcases hf with rfl | hf
-  · exact frameSet_ok _ _ _ (frameSet_ok _ _ _ (frameSet_ok _ _ _ frameOk_nil h1) h2) h1
+  · exact frameSet_ok _ _ _ (frameSet_ok _ _ _ (frameSet_ok _ _ _ frameOk_nil h1 (nameFor_jsname v [] _)) h2
+      (nameFor_dollar (kLimit_dollar v))) h1 (nameFor_dollar (kIndex_dollar v))
   · exact h f hf
 
 theorem pushForEach_ok {sc : Scope} {v : Bytes} (h : ScopeOk sc) (hv : IsIdent v) :
@@ -301,7 +327,8 @@ theorem pushForEach_ok {sc : Scope} {v : Bytes} (h : ScopeOk sc) (hv : IsIdent v
   intro f hf
   simp only [Scope.pushForEach, List.mem_cons] at hf
   rcases hf with rfl | hf
-  · exact frameSet_ok _ _ _ (frameSet_ok _ _ _ (frameSet_ok _ _ _ frameOk_nil h1) h2) h3
+  · exact frameSet_ok _ _ _ (frameSet_ok _ _ _ (frameSet_ok _ _ _ frameOk_nil h1 (nameFor_jsname v [] _)) h2
+      (nameFor_dollar (kLimit_dollar v))) h3 (nameFor_dollar (kIndex_dollar v))
   · exact h f hf
 
 end SoyVerif.Lemmas.JsGenSpec
